@@ -596,6 +596,7 @@ func genPlan(prop, tier string, seed uint64, faults bool) *Plan {
 		// the schedule is the subject: map iteration order is held canonical so
 		// that the sequential reference runs see the same orders
 		p.Order = int(verifrt.OrderCanonical)
+		p.Metrics = r.Chance(0.5)
 		g.genConc(p)
 	}
 	return p
